@@ -5,7 +5,7 @@
 // without the private key the client trusts.  Deviations: altered nonce / server nonce at each of
 // the three server messages and inside the encrypted answer, flipped / truncated / re-keyed /
 // empty encrypted answer, substituted dh_prime (composite, not safe, 2047/2049 bits, failing the
-// residue condition), generator outside 2…7, g_a ∈ {0, 1, p−1, p, p+1, 2^1984, p−2^1984, …} and weak g_a = 3^a with a known small a, wrong /
+// residue condition), generator outside 2…7, g_a ∈ {0, 1, p−1, p, p+1, 2^1984, p−2^1984, …} and weak g_a = 3^a with a known small a, a weak g_b drawn by the client itself, wrong /
 // altered new_nonce_hash1, dh_gen_retry / dh_gen_fail / server_DH_params_fail, wrong constructors,
 // junk, bad envelopes, replayed messages of an earlier run, own RSA key (other fingerprint, or
 // claiming the trusted one), empty / foreign fingerprint lists, pq above 2^63; ciphertext surgery a keyless
@@ -467,7 +467,16 @@ func runAttack(a attack, e *env) result {
 	r := hc.NewRNG(a.seed)
 	client, server := transport.Intermediate.Pipe()
 	tap := &c09x.Tap{Inner: client}
-	crand := &c09x.RecReader{R: r.Fork()}
+	cdir := &c09x.DirReader{R: r.Fork()}
+	switch a.kind {
+	case "client-weak-b":
+		// the client's own draw of b gives a weak g_b = 3^b ≤ 2^1984: it must abort ("bad g_b")
+		cdir.PushExp(big.NewInt(int64([]int{0, 1, 2, 3, 64, 700, 1000, 1250, 1251}[a.arg%9])))
+	case "client-small-b":
+		// a small but acceptable b (g_b with leading zero bytes): control
+		cdir.PushExp(big.NewInt(int64(1252 + a.arg%40)))
+	}
+	crand := &c09x.RecReader{R: cdir}
 	srng := r.Fork()
 	ctx, cancel := context.WithTimeout(context.Background(), 60*time.Second)
 	defer cancel()
@@ -536,14 +545,14 @@ func gen(r *hc.RNG) attack {
 		{"ans-trunc-bytes", r.Intn(64), 2},
 		{"dh-fail", 0, 2}, {"dh-wrongctor", 0, 1}, {"dh-trunc", 0, 1}, {"dh-enckey", 0, 1}, {"dh-replay", 0, 2},
 		{"prime-semiprime", 0, 2}, {"prime-nonsafe", 0, 2}, {"prime-2047", 0, 2}, {"prime-2049", 0, 2}, {"prime-plus2", 0, 2}, {"prime-half", 0, 1},
-		{"g-bad", r.Intn(8), 5}, {"ga", r.Intn(12), 10}, {"ga-weak-known", r.Intn(9), 5},
+		{"g-bad", r.Intn(8), 5}, {"ga", r.Intn(12), 10}, {"ga-weak-known", r.Intn(9), 5}, {"client-weak-b", r.Intn(9), 5},
 		{"gen-nonce", bit128, 4}, {"gen-server-nonce", bit128, 4}, {"gen-hash", bit128, 5}, {"gen-hash-zero", 0, 1}, {"gen-hash2", 0, 2},
 		{"gen-retry", 0, 2}, {"gen-fail", 0, 2}, {"gen-wrongctor", 0, 1}, {"gen-trunc", 0, 1}, {"gen-enckey", 0, 1}, {"gen-replay", 0, 2},
 	}
 	switch x := r.Intn(100); {
 	case x < 12: // controls: an authenticated server with safe parameters must be accepted
 		a.fatal = false
-		a.kind, a.arg = hc.Pick(r, "honest", "honest", "pq-other", "fps-foreign-first", "dh-badtype", "prime-table"), r.Intn(len(c09x.SafePrimes))
+		a.kind, a.arg = hc.Pick(r, "honest", "client-small-b", "pq-other", "fps-foreign-first", "dh-badtype", "prime-table"), r.Intn(len(c09x.SafePrimes))
 		if r.Chance(50) {
 			// format variations by an authenticated server: the model decides (all are accepted
 			// by the specification-level decoding except over-padding)
@@ -643,7 +652,11 @@ func run(c *hc.Ctx) error {
 			c.Fail("client-panic", in, fmt.Sprint(o.panicked))
 			continue
 		case a.fatal && o.cerr == nil:
-			c.Fail("tampered-exchange-accepted", in, "ClientExchange.Run returned a key: "+impl)
+			key := "tampered-exchange-accepted"
+			if strings.HasPrefix(a.kind, "ga") || strings.HasPrefix(a.kind, "g-") || strings.HasPrefix(a.kind, "prime-") || a.kind == "client-weak-b" {
+				key = "unsafe-dh-params-accepted"
+			}
+			c.Fail(key, in, "ClientExchange.Run returned a key: "+impl)
 		case strings.HasPrefix(impl, "failed other:"):
 			c.Fail("unclassified-client-error", in, impl)
 		}
